@@ -16,7 +16,7 @@ def run(ctx):
     ctx.run_shards(sh, timeout=7200)
     return ctx.finish(
         rule=("all ordered pairs (source, target) over {strided, morton<use_bmi2=true>, morton<false>, hilbert(N=2)} (identity pairs included), "
-              "N 1..4, (storage, M) in {(float,1),(double,3)}: EVERY extent vector in 1..B_N (64/12/6/4 quick, 256/24/10/6 thorough); source "
+              "N 1..4, (storage, M) in {(float,1),(double,3)}: EVERY extent vector in 1..B_N (64/12/6/4 quick, 256/24/10/6 thorough), plus listed large extents for N = 1, 2 whose padded curve side is 1024, 2048, 4096 (513, 600, 777, 1023, 1025, 2049, 4097; 513x2, 3x600, 1025x1, 2x1027, 520x3, 31x33, 1x2049); source "
               "filled with a unique id per cell component; checked: converted field reports the same extents, holds the same value at every "
               "lattice coordinate; the source is unchanged and shares no storage with the copy; A->B->A reproduces values and extents; "
               "move-conversion; the same with the STORED SCALAR TYPE changing too (float<->double) into every storage order. Whole stacks affine<I1<L1<array>>> -> affine<I2<L2<array>>> (I in {nearest, linear}) "
